@@ -448,6 +448,11 @@ def gen_C05(g, tier):
                 for tag, kind in mode_kinds(g):
                     if kind is None: kind = 'square %s %d %d' % (dhex(0.5), g.randint(2, 5), ns)
                     cs.append(Case('o.c05.lagdisjoint %d %d %d %s %s' % (sel, ns, lag, hexes(SA), kind), 'orc', 'disjoint-lagged-' + tag, check=first_small(1e-12)))
+    for f in (0.5, 0.25, 0.75):
+        for w in (1, 2, 3, 5):
+            for which in (0, 1, 2):
+                for lag in (1, 2, 3):
+                    cs.append(Case('o.c05.lagdisjointmix %s %d %d %s %d' % (dhex(f), lag, w, dhex(g.choice([0.5, 1.0, 0.09])), which), 'orc', 'disjoint-lagged-mixture', check=first_small(1e-12)))
     for ns in (1, 2, 4):
         for w in (1, 2, 3):
             for k in (0.0, 0.2, -0.1):
